@@ -13,7 +13,6 @@ import hashlib
 import io
 import json
 import os
-import re
 import shutil
 import sys
 from pathlib import Path
@@ -28,6 +27,7 @@ KINDS = [
     ("Can't evaluate how much to pad", 'pad_eval'),
     ("'pad' must get a positive", 'pad_nonpositive'),
     ("'pad' requires the current address to be op-aligned", 'pad_unaligned'),
+    ('padding ops, which exceeds the', 'pad_too_far'),
     ('segment failed', 'segment_eval'),
     ('segment ops must have a w-aligned', 'segment_unaligned'),
     ('reserve failed', 'reserve_eval'),
@@ -126,10 +126,35 @@ def run_variant(files, w, depth, out_path, dump):
     return res
 
 
+def run_ns(job, d):
+    """{"curr": [ns...], "spelled": str} -> the name the real parser gives to the label `spelled` used inside the
+    nested namespaces curr, or None when parsing fails"""
+    from flipjump.assembler.fj_parser import parse_macro_tree
+    d.mkdir(parents=True, exist_ok=True)
+    lines = [f'ns {n} {{' for n in job['curr']] + [f'; {job["spelled"]}'] + ['}' for _ in job['curr']]
+    p = d / 'n.fj'
+    p.write_text('\n'.join(lines) + '\n')
+    buf = io.StringIO()
+    try:
+        with contextlib.redirect_stdout(buf):
+            macros = parse_macro_tree([('f1', p)], 64, True)
+    except Exception as e:
+        return {'name': None, 'error': type(e).__name__}
+    ops = next(iter(macros.values())).ops
+    v = ops[0].jump.value
+    return {'name': v if isinstance(v, str) else None}
+
+
 def main():
     inp, outp = sys.argv[1], sys.argv[2]
     payload = json.load(open(inp))
     work = Path(os.getcwd()) / f'macro_{os.getpid()}'
+    if 'ns_jobs' in payload:
+        res = [run_ns(j, work / f'ns{i}') for i, j in enumerate(payload['ns_jobs'])]
+        shutil.rmtree(work, ignore_errors=True)
+        with open(outp, 'w') as f:
+            json.dump(res, f)
+        return
     out = []
     for ji, job in enumerate(payload['jobs']):
         r = {'id': job['id']}
